@@ -165,7 +165,7 @@ PROPS["C08"] = {
 PROPS["C09"] = {
     "lean_modules": ["StyluaModel.Props.C09"],
     "theorem_prefix": "C09_",
-    "required_theorems": ["C09_decide", "C09_inRange", "C09_outside_verbatim", "C09_inside_same", "C09_order", "C09_only_first_stripped", "C09_first_stripped_iff"],
+    "required_theorems": ["C09_decide", "C09_inRange", "C09_outside_verbatim", "C09_inside_same", "C09_order", "C09_only_first_stripped", "C09_first_stripped_iff", "C09_eof_untouched"],
     "hx": [["c08"]],
     "level": "proof",
     "level_text": "Proof of the block logic under a range: a statement is formatted iff it lies wholly inside the range, one that does not keeps its semicolon and blank lines, one that does comes out exactly as under whole-file formatting, order is kept — for blocks of any length and all ranges. Byte-level claims (prefix/suffix unchanged, exact text kept) are checked by the oracle on generated programs x all statement-aligned and several unaligned ranges.",
@@ -191,7 +191,7 @@ PROPS["C12"] = {
     "trusted_base": [],
     "assumptions": ["only the top-level block is sorted (as documented)"],
 }
-PROPS["C09"]["hx"] = [["c08"], ["c12"]]
+PROPS["C09"]["hx"] = [["c08"], ["c12"], ["c03"]]
 PROPS["C08"]["hx"] = [["c08"], ["c12"]]
 
 TRIVIA_RULE = ("ring 2 (`trivia`): seeded leading-trivia sequences (blank lines, indentation, line comments with trailing blanks / interior CR / non-ASCII, block comments of level 0-2 with LF, CRLF and mixed interiors) in LF and CRLF files, formatted under both line_endings; the bytes the real formatter puts in front of the token must equal the model's rendering of load_token_trivia. distinct_nontrivial = requests with at least one comment. ")
@@ -199,7 +199,7 @@ TRIVIA_RULE = ("ring 2 (`trivia`): seeded leading-trivia sequences (blank lines,
 PROPS["C03"] = {
     "lean_modules": ["StyluaModel.Props.C03"],
     "theorem_prefix": "C03_",
-    "required_theorems": ["C03_load", "C03_text_line", "C03_text_block", "C03_paren_partial", "C03_sort_perm"],
+    "required_theorems": ["C03_load", "C03_text_line", "C03_text_block", "C03_paren_partial", "C03_sort_perm", "C03_eof_comments"],
     "hx": [["c03"], ["pipe"], ["slots"], ["c12"]],
     "level": "proof",
     "level_text": "Proof, partial: load_token_trivia (through which every token's trivia passes) keeps every comment once, in order, with kind and level, text normalised only by trim_end / newline conversion (theorems for lists of any length); the parenthesis transplant carries a sublist (full preservation is proven false of the code: counterexample theorem); require sorting is a permutation. That every construct routes every token through these functions is carried by the comment-slot enumeration (every token gap of 46 constructs) and the corpus census, whose unchanged-tree failures are listed exactly.",
@@ -213,7 +213,7 @@ PROPS["C03"] = {
 PROPS["C10"] = {
     "lean_modules": ["StyluaModel.Props.C10"],
     "theorem_prefix": "C10_",
-    "required_theorems": ["C10_created_ws", "C10_line_comment_clean", "C10_block_lf", "C10_block_crlf"],
+    "required_theorems": ["C10_created_ws", "C10_line_comment_clean", "C10_block_lf", "C10_block_crlf", "C10_eof_one_newline"],
     "hx": [["c03"], ["pipe"], ["slots"]],
     "level": "proof",
     "level_text": "Proof, partial: the trivia loader never copies input whitespace (every whitespace token it returns is a created newline / indent / single space), a formatted line comment or shebang never ends in whitespace (no stray CR from CRLF input), block-comment and long-string interiors contain only the configured ending (given no lone CR). That all ~150 sites that build whitespace use these constructors is carried by the whitespace scan of every output of the closed set (corpus in LF/CRLF/mixed x both endings x both indent types), not by a theorem.",
